@@ -199,14 +199,21 @@ func (s jsonSet) patch(pathBehind, pathAhead path, oldValues, newValues []JsonNo
 	if len(rest) > 0 {
 		// Recurse into a specific object.
 		lookingFor := pathObject.ident(metadata)
+		found := false
 		for _, v := range s {
 			if o, ok := v.(jsonObject); ok {
 				id := o.pathIdent(pathObject, metadata)
 				if id == lookingFor {
+					// An array may hold the same member more than
+					// once. It is one element of the set, so every
+					// copy is patched.
 					v.patch(append(pathBehind, n), rest, oldValues, newValues, strategy)
-					return s, nil
+					found = true
 				}
 			}
+		}
+		if found {
+			return s, nil
 		}
 		return nil, fmt.Errorf("invalid diff: expected object with id %v but found none", pathObject.Json())
 	}
